@@ -44,16 +44,22 @@ func newDataStoreSet(l lane.Lane, basePath string, phook *DispatchHook) *dataSto
 		fileBase += ".db"
 
 		filepath.WalkDir(dir, func(path string, d fs.DirEntry, err error) error {
+			if err != nil || d == nil {
+				// unreadable directory (or no such directory yet): nothing to load from it
+				return nil
+			}
 			if !d.IsDir() {
 				if strings.HasPrefix(d.Name(), fileBase) {
 					n64, parseErr := strconv.ParseInt(d.Name()[len(fileBase):], 10, 32)
 					n := int(n64)
 					if parseErr == nil {
 						// found a data store file - load it
-						if n != 0 {
-							dss.createDbUnlocked(n)
+						ds, valid := dss.createDbUnlocked(n)
+						if !valid {
+							// not the index of a database (<base>.db16, <base>.db-1): a stray file
+							return nil
 						}
-						dsc := dss.dbs[n].newDataStoreCommand()
+						dsc := ds.newDataStoreCommand()
 						loadErr := dsc.load(l, path)
 						if loadErr != nil {
 							return loadErr
